@@ -90,9 +90,10 @@ def inputs(ctx):
                         "syncs": [{"t": sp, "ps": [["ENCC", False]]}]})
         elif fmt == "MicroDVD":
             fn, fd = c["fps"]
+            # the end frame is a fixed large number: {0}{0} is pycaption's fps header, not a cue
             ins.append({"id": "g%d" % n, "fmt": fmt, "fps": [fn, fd],
                         "fps_text": None if [fn, fd] == [25, 1] else str(float(Fraction(fn, fd))),
-                        "cues": [{"b": sp, "e": sp, "dur": False, "txt": True}]})
+                        "cues": [{"b": sp, "e": {"kind": "frame", "n": D(100000000)}, "dur": False, "txt": True}]})
         else:
             ins.append({"id": "g%d" % n, "fmt": fmt, "cues": [{"b": sp, "e": sp, "dur": False, "txt": True}]})
             if fmt == "DFXP":
